@@ -19,6 +19,7 @@ from agilerl.algorithms.dqn_rainbow import RainbowDQN
 from agilerl.components.data import Transition
 from agilerl.components.replay_buffer import MultiStepReplayBuffer, PrioritizedReplayBuffer
 from agilerl.hpo.mutation import Mutations
+from agilerl.algorithms.core.registry import HyperparameterConfig, RLParameter
 
 OBS_DIM = 3
 
@@ -29,7 +30,9 @@ NONDYADIC = [(51, 0.0, 13.1), (21, 0.0, 0.3), (51, -100.0, -99.7), (11, -1.3, 2.
              (21, 0.0, 13.1), (11, 0.0, 0.3), (2, -0.3, 0.6), (51, 0, 10)]
 # large magnitudes, all-negative and narrow-at-large-offset ranges; num_atoms at the constructor edge that still works (2)
 LARGE = [(11, -1000.0, 1000.0), (5, 1000.0, 1001.0), (21, -20000.0, -100.0), (2, -1.0e6, 1.0e6), (3, 0.0, 1.0e5)]
-PREPS = ["fresh", "learned", "clone", "mutated", "mutated_param", "reloaded", "chain", "failed_learn", "learned_twice", "after_other_agent"]
+PREPS = ["fresh", "learned", "clone", "mutated", "mutated_param", "reloaded", "chain", "failed_learn", "learned_twice", "after_other_agent",
+         # hyperparameters changed on the live agent after construction (round 5)
+         "gamma_assigned", "gamma_mutated", "nstep_assigned"]
 # dtypes of reward / done / action columns that learn() accepts (float64 and bool columns raise loudly: the buffers cast to float32)
 R_DT = ["float32", "int64", "int32"]
 D_DT = ["float32", "int64", "uint8"]
@@ -189,6 +192,14 @@ class C18(vlib.Driver):
         for cfg, mode in (((51, 0.0, 200.0), "one"), ((11, -5.0, 5.0), "nstep"), ((21, 0.0, 13.1), "combined"), ((5, 0.0, 4.0), "combined")):
             cases.append(self.one_case(rng, cfg, peaked=True, mode=mode, prep="fresh"))
             cases.append(self.one_case(rng, cfg, peaked=True, mode=mode, prep="learned_twice"))
+        # hyperparameters changed on the live agent: every state x {n-step, combined, 1-step} x both sources
+        k = 0
+        for prep in ("gamma_assigned", "gamma_mutated", "nstep_assigned"):
+            for mode in ("nstep", "combined", "one"):
+                cases.append(self.one_case(rng, [(5, 0.0, 4.0), (11, -5.0, 5.0), (3, 0.1, 0.7)][k % 3], prep=prep, mode=mode,
+                                           source=["direct", "buffer"][k % 2], nstep=[3, 2, 3][k % 3], gamma=[0.5, 0.99, 0.9][k % 3],
+                                           classes=["inside", "on_atom", "above"]))
+                k += 1
         for prep in ("failed_learn", "learned_twice", "after_other_agent"):
             for source in ("direct", "buffer"):
                 cases.append(self.one_case(rng, (5, -2.0, 2.0), prep=prep, source=source, mode="combined"))
@@ -253,6 +264,18 @@ class C18(vlib.Driver):
             finally:
                 if path.exists():
                     path.unlink()
+        if prep == "gamma_assigned":          # a direct assignment on the live agent (after one learn with the old value)
+            learned(ag)
+            ag.gamma = [0.9, 0.5, 0.25, 0.99][seed % 4] if case["gamma"] not in (0.9,) else 0.5
+            return ag
+        if prep == "gamma_mutated":           # Mutations.rl_hyperparam_mutation: setattr(agent, "gamma", new value)
+            learned(ag)
+            m = Mutations(no_mutation=0, architecture=0, new_layer_prob=0.3, parameters=0, activation=0, rl_hp=1, rand_seed=seed)
+            return m.mutation([ag])[0]
+        if prep == "nstep_assigned":          # n_step is a plain attribute
+            learned(ag)
+            ag.n_step = 1 + (case["nstep"] % 3)
+            return ag
         if prep == "learned":
             return learned(ag)
         if prep == "learned_twice":           # the same batch OBJECTS handed to learn twice (no clone in between)
@@ -297,9 +320,12 @@ class C18(vlib.Driver):
                                n_step=case["nstep"], gamma=0.75, net_config=net_config)
             other._dqn_loss(self.sample_obs(kind, B), torch.zeros(B, 1, dtype=torch.long), torch.ones(B, 1), self.sample_obs(kind, B),
                             torch.zeros(B, 1), 0.75)
+        hp = None
+        if case.get("prep") == "gamma_mutated":      # gamma is the only entry of the hyperparameter configuration: the RL-hp mutation picks it
+            hp = HyperparameterConfig(gamma=RLParameter(min=0.05, max=0.995))
         ag = RainbowDQN(obs_space, spaces.Discrete(A), batch_size=B, num_atoms=N, v_min=case["vmin"], v_max=case["vmax"],
                         n_step=case["nstep"], gamma=case["gamma"], combined_reward=(case["mode"] == "combined"),
-                        prior_eps=case["prior_eps"], net_config=net_config)
+                        prior_eps=case["prior_eps"], net_config=net_config, hp_config=hp)
         with torch.no_grad():               # make online and target differ and the distributions far from uniform
             for net in (ag.actor, ag.actor_target):
                 for p in net.parameters():
@@ -383,6 +409,9 @@ class C18(vlib.Driver):
         ag, b1, bn = self.build(case)
         N, A, B = case["N"], case["A"], case["B"]
         obs = {"support": [float(x) for x in ag.support], "delta_z": float(ag.delta_z), "parts": {}, "errors": {}}
+        # the discount and the n-step exponent the agent holds NOW (they may have been changed after construction)
+        obs["eff"] = {"gamma": float(ag.gamma), "nstep": int(ag.n_step)}
+        case = self.effective(case, obs)
         gam = {"1": case["gamma"], "n": case["gamma"] ** case["nstep"]}
         obs["rows"] = {}
         for part, b, crows in (("1", b1, case["rows1"]), ("n", bn, case["rowsn"])):
@@ -488,6 +517,14 @@ class C18(vlib.Driver):
         return "[" + "; ".join(out) + "]"
 
     @staticmethod
+    def effective(case, obs):
+        """the case with gamma / n_step replaced by the values the live agent held when it was observed"""
+        if obs is not None and "eff" in obs:
+            case = dict(case)
+            case["gamma"], case["nstep"] = obs["eff"]["gamma"], obs["eff"]["nstep"]
+        return case
+
+    @staticmethod
     def rows_of(case, obs, part):
         """the rows as learn() received them (from the buffers when source = buffer)"""
         if obs is not None and "rows" in obs:
@@ -495,6 +532,7 @@ class C18(vlib.Driver):
         return case["rows1"] if part == "1" else case["rowsn"]
 
     def coq_term(self, case, obs):
+        case = self.effective(case, obs)
         p1, pn = obs["parts"]["1"], obs["parts"]["n"]
         mode = {"one": "OneStep", "nstep": "NStep", "combined": "Combined"}[case["mode"]]
 
@@ -527,6 +565,7 @@ class C18(vlib.Driver):
 
     # ---------------------------------------------------------------- oracle (independent of the Coq model)
     def oracle(self, case, obs):
+        case = self.effective(case, obs)
         out = []
         N, vmin, vmax = case["N"], float(case["vmin"]), float(case["vmax"])
         rng_ = vmax - vmin
@@ -643,6 +682,7 @@ class C18(vlib.Driver):
         return repr(k)
 
     def case_branches(self, case, obs):
+        case = self.effective(case, obs)
         br = set()
         for part, g in (("1", Fraction(case["gamma"])), ("n", Fraction(case["gamma"]) ** case["nstep"])):
             for r in self.rows_of(case, obs, part):
@@ -683,6 +723,8 @@ class C18(vlib.Driver):
                 "weights=" + ("ones" if all(w == 1.0 for w in self.case_weights(case)) else "non-uniform"),
                 f"weights-shape={case.get('wshape', 'col')}"]
         labs += [f"prep={case.get('prep', 'fresh')}", f"source={case.get('source', 'direct')}", f"obs_kind={case.get('obs_kind', 'vector')}"]
+        if obs.get("eff") and (obs["eff"]["gamma"] != case["gamma"] or obs["eff"]["nstep"] != case["nstep"]):
+            labs.append("hyperparameter-changed-after-construction:" + ("gamma" if obs["eff"]["gamma"] != case["gamma"] else "n_step"))
         labs += ["dtypes=" + "/".join(case.get("dtypes", ["float32", "float32", "int64"])), f"peaked={bool(case.get('peaked'))}"]
         if case["gamma"] == 0:
             labs.append("gamma=0")
